@@ -9,6 +9,7 @@ import (
 	"os/exec"
 	"path/filepath"
 	"regexp"
+	"runtime/pprof"
 	"sort"
 	"strconv"
 	"strings"
@@ -25,13 +26,24 @@ func main() {
 	if len(os.Args) < 2 {
 		usage()
 	}
+	if pf := os.Getenv("GOSYM_PROF"); pf != "" {
+		f, _ := os.Create(pf)
+		pprof.StartCPUProfile(f)
+		defer pprof.StopCPUProfile()
+	}
+	code := realMain()
+	pprof.StopCPUProfile()
+	os.Exit(code)
+}
+
+func realMain() int {
 	switch os.Args[1] {
 	case "check":
-		os.Exit(cmdCheck(os.Args[2:]))
+		return cmdCheck(os.Args[2:])
 	case "run":
-		os.Exit(cmdRun(os.Args[2:]))
+		return cmdRun(os.Args[2:])
 	case "replay":
-		os.Exit(cmdReplay(os.Args[2:]))
+		return cmdReplay(os.Args[2:])
 	case "list":
 		hs, err := sym.ScanHarnesses(harnessRoot)
 		if err != nil {
@@ -44,6 +56,7 @@ func main() {
 	default:
 		usage()
 	}
+	return 0
 }
 
 func usage() {
